@@ -258,39 +258,107 @@ func ChildMain() {
 	res.Streams = []string{"callpath", "schema"}
 	fcfg := ParseFilterCfg(os.Getenv("VERIF_E2E_FILTERS"))
 	registerFilters(fcfg)
-	port := srv.FreePort("127.0.0.1")
+	pool, _ := strconv.Atoi(os.Getenv("VERIF_E2E_POOL"))
+	var replay *Case
+	if f := os.Getenv("VERIF_E2E_REPLAY"); f != "" {
+		var c Case
+		if err := common.ReadReplay(f, &c); err == nil && c.Scenario != nil {
+			replay = &c
+		}
+	}
+	ports := newPortAlloc()
 	cfg := &srv.Config{Servants: map[string]srv.ServantDef{}}
+	if pool > 0 {
+		// worker pool: requests queue up behind busy workers (the framework default queue capacity
+		// of 10^7 entries would allocate 80 MB per adapter)
+		cfg.MaxRoutine, cfg.QueueCap = pool, 4096
+	}
 	for _, s := range servants {
+		port, err := ports.probe()
+		if err != nil {
+			res.Fatal(o.Out, fmt.Errorf("%s: %v", startupTrouble, err))
+		}
 		cfg.Adapters = append(cfg.Adapters, srv.Adapter{Obj: s.obj, Proto: "tcp", Host: "127.0.0.1", Port: port})
 		cfg.Servants[s.obj] = srv.ServantDef{D: s.d, Imp: s.imp}
-		port = srv.FreePort("127.0.0.1")
 	}
 	dir, _ := os.MkdirTemp("", "verif-c01-")
 	defer os.RemoveAll(dir)
 	cfg.Dir = dir
 	if err := srv.Start(cfg, nil, nil, true); err != nil {
-		res.Fatal(o.Out, err)
+		res.Fatal(o.Out, fmt.Errorf("%s: %v", startupTrouble, err))
 	}
+	serverGone := func() {
+		// an adapter could not bind its port (taken by another process in the meantime): the
+		// application has shut down and nothing observed in this process says anything about the
+		// code under test; the launcher starts the child again
+		if srv.Exited() {
+			res.Fatal(o.Out, fmt.Errorf("%s: the server application has exited (an adapter could not listen)", startupTrouble))
+		}
+	}
+	time.Sleep(50 * time.Millisecond)
+	serverGone()
+	// every proxy talks to its adapter through a frame-level tap (tap.go)
+	var taps []*Tap
 	comm := tars.NewCommunicator()
 	for _, p := range proxies {
 		for _, a := range cfg.Adapters {
 			if a.Obj == p.obj {
-				comm.StringToProxy(fmt.Sprintf("%s@tcp -h %s -p %d -t 5000", p.obj, a.Host, a.Port), p.prx)
+				ln, tport, err := ports.listen()
+				if err != nil {
+					res.Fatal(o.Out, fmt.Errorf("%s: %v", startupTrouble, err))
+				}
+				tap, err := StartTap(a.Obj, fmt.Sprintf("%s:%d", a.Host, a.Port), ln, tport)
+				if err != nil {
+					res.Fatal(o.Out, err)
+				}
+				taps = append(taps, tap)
+				comm.StringToProxy(fmt.Sprintf("%s@tcp -h %s -p %d -t 5000", p.obj, a.Host, tap.Port), p.prx)
 			}
 		}
 	}
 	rng := o.Rand()
 	perFn := 6
 	conc := 16
+	nScen := 0
 	if o.Thorough() {
 		perFn = 40
 		conc = 64
 	}
+	if pool > 0 {
+		// the ordinary phases in a reduced form (calls are served by the pool's workers), then the
+		// queueing scenarios
+		perFn, conc, nScen = 4, 8, 6
+		if o.Thorough() {
+			perFn, conc, nScen = 8, 16, 40
+		}
+	}
 	if s := os.Getenv("VERIF_E2E_PERFN"); s != "" {
 		perFn, _ = strconv.Atoi(s)
 	}
+	if s := os.Getenv("VERIF_E2E_NSCEN"); s != "" {
+		nScen, _ = strconv.Atoi(s)
+	}
 	newCtx := func() context.Context { return current.ContextWithClientCurrent(context.Background()) }
 	var recs []*Record
+	var scens []scenRun
+	if replay != nil {
+		// replay of one worker-pool scenario: exactly its calls
+		for _, pc := range replay.Scenario.Calls {
+			if Calls[pc.Fn] == nil {
+				res.Fatal(o.Out, fmt.Errorf("replay: function %s is not among the generated interfaces (gen_seed %d, gen_tier %s)", pc.Fn, replay.GenSeed, replay.GenTier))
+			}
+		}
+		rs, ok := RunScenario(replay.Scenario)
+		scens = append(scens, scenRun{replay.Scenario, ok})
+		recs = append(recs, rs...)
+		time.Sleep(300 * time.Millisecond)
+		serverGone()
+		judgeAll(o, res, fcfg, pool, recs, scens, taps)
+		if err := res.Write(o.Out); err != nil {
+			panic(err)
+		}
+		os.Exit(0)
+	}
 	// sequential phase: every function in every mode
 	modes := []string{"opts0", "opts1", "opts2", "oneway"}
 	for _, fn := range FuncNames {
@@ -314,6 +382,15 @@ func ChildMain() {
 		cs.Rec.Script.RespCtx = map[string]string{"rc": "v"}
 		invokeRecovering(Calls[FuncNames[0]], newCtx(), cs)
 		recs = append(recs, cs.Rec)
+	}
+	// worker-pool phase: calls queue up behind scripted slow calls (pool.go)
+	if len(FuncNames) > 0 && pool > 0 {
+		for i := 0; i < nScen; i++ {
+			sc := GenScenario(rng, pool)
+			rs, ok := RunScenario(sc)
+			scens = append(scens, scenRun{sc, ok})
+			recs = append(recs, rs...)
+		}
 	}
 	// concurrent phase: callers sharing the proxies
 	var wg sync.WaitGroup
@@ -339,12 +416,22 @@ func ChildMain() {
 		}(seed)
 	}
 	wg.Wait()
-	time.Sleep(300 * time.Millisecond) // late duplicate deliveries of one-way calls would show up here
-	judgeAll(o, res, fcfg, recs)
+	time.Sleep(300 * time.Millisecond) // late duplicate deliveries of one-way calls and late reply frames would show up here
+	serverGone()
+	judgeAll(o, res, fcfg, pool, recs, scens, taps)
 	if err := res.Write(o.Out); err != nil {
 		panic(err)
 	}
 	os.Exit(0)
+}
+
+// startupTrouble marks harness errors that say the child's server did not come up on ports of its
+// own; the launcher retries such a child.
+const startupTrouble = "e2e-server-startup"
+
+type scenRun struct {
+	sc *Scenario
+	ok bool
 }
 
 func waitInvoked(r *Record) {
@@ -365,9 +452,25 @@ type Case struct {
 	Mode    string `json:"mode"`
 	Seed    int64  `json:"seed"`
 	Note    string `json:"note,omitempty"`
+	// worker-pool scenarios (pool.go): pool size of the server and the whole scenario, so that a
+	// replay executes exactly these calls; GenSeed/GenTier regenerate the same interfaces
+	Pool     int       `json:"pool,omitempty"`
+	Role     string    `json:"role,omitempty"`
+	Scenario *Scenario `json:"scenario,omitempty"`
+	GenSeed  int64     `json:"gen_seed,omitempty"`
+	GenTier  string    `json:"gen_tier,omitempty"`
 }
 
-func judgeAll(o *common.Opts, res *common.Result, fcfg FilterCfg, recs []*Record) {
+func judgeAll(o *common.Opts, res *common.Result, fcfg FilterCfg, pool int, recs []*Record, scens []scenRun, taps []*Tap) {
+	genSeed, _ := strconv.ParseInt(os.Getenv("VERIF_E2E_GENSEED"), 10, 64)
+	genTier := os.Getenv("VERIF_E2E_GENTIER")
+	caseOf := func(r *Record) Case {
+		c := Case{Filters: fcfg.String(), Fn: r.Fn, Mode: r.Mode, Seed: r.Seed, GenSeed: genSeed, GenTier: genTier, Pool: pool}
+		if r.Scn != nil {
+			c.Role, c.Scenario = r.Role, r.Scn
+		}
+		return c
+	}
 	dirModel := filepath.Dir(o.Model)
 	var mCall, mSchema *common.Model
 	if o.Model != "" {
@@ -394,12 +497,19 @@ func judgeAll(o *common.Opts, res *common.Result, fcfg FilterCfg, recs []*Record
 		}
 	}
 	for i, r := range recs {
-		cs := Case{Filters: fcfg.String(), Fn: r.Fn, Mode: r.Mode, Seed: r.Seed}
+		cs := caseOf(r)
 		errk := r.Script.ErrKind
 		if errk == "" {
 			errk = "ok"
 		}
-		res.Count(fmt.Sprintf("%s/%s/%s/%d", fcfg, r.Fn, r.Mode, r.Seed), "call:"+r.Mode+":"+errk, true)
+		if r.Role != "" {
+			res.Count(fmt.Sprintf("%s/pool%d/%s/%s/%d", fcfg, pool, r.Fn, r.Mode, r.Seed), poolClass(r), true)
+		} else {
+			res.Count(fmt.Sprintf("%s/pool%d/%s/%s/%d", fcfg, pool, r.Fn, r.Mode, r.Seed), "call:"+r.Mode+":"+errk, true)
+		}
+		// a call that ran out of time in the server's queue has no counterpart in the call path
+		// model (which describes served calls): implementation-side oracle only
+		timedOut := r.Role == "queued" && r.Short && (r.SrvCount != 1 || (r.Mode != "oneway" && r.GotErr != "nil"))
 		if i%53 == 0 {
 			res.Sample(map[string]interface{}{"filters": fcfg.String(), "fn": r.Fn, "mode": r.Mode, "sent": trunc(strings.Join(r.SentIns, " ")), "got_ret": trunc(r.GotRet), "got_err": r.GotErr, "events": r.Events})
 		}
@@ -420,7 +530,7 @@ func judgeAll(o *common.Opts, res *common.Result, fcfg FilterCfg, recs []*Record
 				res.Violate(common.Violation{Signature: "C01:filter-trace:server", What: fmt.Sprintf("server filters saw %v, expected %v", st, ws), Case: common.Case{Stream: "e2e", Op: cs}})
 			}
 			// model: the same configuration through the Lean filter model
-			if mCall != nil {
+			if mCall != nil && !timedOut {
 				callerr := 0
 				if r.Script.ErrKind != "" {
 					callerr = 1
@@ -454,7 +564,7 @@ func judgeAll(o *common.Opts, res *common.Result, fcfg FilterCfg, recs []*Record
 			}
 		}
 		// error mapping through the model
-		if mCall != nil && r.Mode != "oneway" && r.Panic == "" && r.SrvCount == 1 {
+		if mCall != nil && r.Mode != "oneway" && r.Panic == "" && r.SrvCount == 1 && !timedOut {
 			kind := "nil"
 			if r.Script.ErrKind != "" {
 				kind = r.Script.ErrKind
@@ -486,6 +596,65 @@ func judgeAll(o *common.Opts, res *common.Result, fcfg FilterCfg, recs []*Record
 			checkBuffers(res, mSchema, cs, r)
 		}
 		res.TracesValidated++
+	}
+	// --- worker-pool scenarios: what ran ---
+	for _, sr := range scens {
+		ow, tw := 0, 0
+		for _, pc := range sr.sc.Calls {
+			if pc.Role == "queued" && pc.TimeoutMs < longTimeoutMs {
+				if pc.Mode == "oneway" {
+					ow++
+				} else {
+					tw++
+				}
+			}
+		}
+		class := fmt.Sprintf("pool-scenario:workers%d", sr.sc.Workers)
+		if !sr.ok {
+			class += ":blockers-not-running"
+		}
+		res.Count(fmt.Sprintf("%s/scenario/%d/%d", fcfg, sr.sc.Workers, sr.sc.Calls[0].Seed), class, true)
+		if ow > 0 {
+			res.Histogram["pool-scenario:oneway-expiring-in-queue"]++
+		}
+		if tw > 0 {
+			res.Histogram["pool-scenario:twoway-expiring-in-queue"]++
+		}
+	}
+	// --- wire oracle (tap.go): replies seen on the wire ---
+	byID := map[string]*Record{}
+	for _, r := range recs {
+		byID[r.ID] = r
+	}
+	for _, t := range taps {
+		ps, st := t.Problems()
+		res.Histogram["wire:request-frames"] += st.Requests
+		res.Histogram["wire:request-frames-oneway"] += st.OneWay
+		res.Histogram["wire:response-frames"] += st.Responses
+		res.Histogram["wire:connections"] += st.Conns
+		if st.Pushes > 0 {
+			res.Note("tap %s: %d server push frames (request id 0) ignored", t.Obj, st.Pushes)
+		}
+		for _, b := range st.Broken {
+			res.Note("tap %s: %s", t.Obj, b)
+		}
+		for _, p := range ps {
+			cs := Case{Filters: fcfg.String(), Fn: p.Func, Mode: "opts0", GenSeed: genSeed, GenTier: genTier, Pool: pool, Note: "no call id on the wire (call without options or framework request)"}
+			if r := byID[p.VCall]; r != nil {
+				cs = caseOf(r)
+			}
+			res.Violate(common.Violation{Signature: "C01:" + p.Class + ":" + p.Locus, What: p.What, Case: common.Case{Stream: "e2e", Op: cs, Impl: trunc(p.What)}})
+		}
+		// a two-way call that the caller saw succeed was answered by exactly one frame (more than
+		// one is reported above); none at all means the tap has not seen the traffic: harness error
+		if len(st.Broken) == 0 {
+			rc := t.ReplyCounts()
+			for _, r := range recs {
+				if n, ok := rc[r.ID]; ok && n == 0 && r.Mode != "oneway" && r.GotErr == "nil" && r.Panic == "" {
+					res.Fatal(o.Out, fmt.Errorf("tap %s saw no response frame for %s (%s %s) although the caller got a successful result", t.Obj, r.ID, r.Fn, r.Mode))
+				}
+			}
+		}
 	}
 }
 
